@@ -23,18 +23,20 @@ SpliceAll(line, ss, new) ==
 
 SitesOn(rec, f, l) == {s \in Range(rec.sites) : s.file = f /\ s.line = l}
 
-ExpectedLine(rec, f, l) == SpliceAll(rec.texts[f].before[l], SitesOn(rec, f, l), rec.req.new)
-
-\* known-defect shapes (tags), computed from the input only
-MultiSite(rec, f, l) == Cardinality(SitesOn(rec, f, l)) >= 2 /\ Len(rec.req.new) # Len(rec.req.old)
+\* lines that carry sites are given as sequences of single characters (rec.texts[f].siteLines), so that columns are
+\* character positions whatever the encoding unit of strings is; SpliceAll works on any sequence
+SiteLineOf(rec, f, l) == CHOOSE sl \in Range(rec.texts[f].siteLines) : sl.line = l
 
 DiffText(rec) ==
   UNION {
     LET t == rec.texts[f]
+        siteLs == {s.line : s \in {x \in Range(rec.sites) : x.file = f}}
     IN  IF Len(t.after) # Len(t.before) THEN {Item("C05", "line-count-changed", t.path, {})}
-        ELSE {Item("C05", IF SitesOn(rec, f, l) = {} THEN "untouched-line-changed" ELSE "site-line-wrong",
-                   t.path \o ":" \o ToString(l), {}) :
-                l \in {l \in DOMAIN t.before : t.after[l] # ExpectedLine(rec, f, l)}}
+        ELSE {Item("C05", "untouched-line-changed", t.path \o ":" \o ToString(l), {}) :
+                l \in {l \in DOMAIN t.before \ siteLs : t.after[l] # t.before[l]}} \cup
+             {Item("C05", "site-line-wrong", t.path \o ":" \o ToString(l), {}) :
+                l \in {l \in siteLs : LET sl == SiteLineOf(rec, f, l)
+                                      IN  sl.after # SpliceAll(sl.before, SitesOn(rec, f, l), rec.req.newChars)}}
     : f \in DOMAIN rec.texts}
 
 \* the original model with that method and those calls renamed
